@@ -27,6 +27,7 @@ func TestMain(m *testing.M) {
 		{Test: "TestAllBlocks", Quick: 8, Thorough: 8},
 		{Test: "TestRandomRoundTrips", Quick: 4, Thorough: 8},
 		{Test: "TestMalformed", Quick: 4, Thorough: 8},
+		{Test: "TestColdDecode", Quick: 2, Thorough: 2},
 	})
 }
 
@@ -215,10 +216,16 @@ func TestRandomRoundTrips(t *testing.T) {
 		} else {
 			nw := size * 2 / 3
 			ws := make([]string, nw)
+			// word-length class: the shortest and the longest phrases a seed can have are far from what random bytes give
+			wantLen := rapid.SampledFrom([]int{0, 0, 3, 6, 4}).Draw(rt, "wordLen")
 			for i := range ws {
 				ws[i] = words[rapid.IntRange(0, 4095).Draw(rt, "w")]
+				for tries := 0; wantLen != 0 && len(ws[i]) != wantLen && tries < 400; tries++ {
+					ws[i] = words[rapid.IntRange(0, 4095).Draw(rt, "w2")]
+				}
 			}
 			c.Phrase = strings.Join(ws, " ")
+			r.Count(fmt.Sprintf("phrase_word_length_class_%d", wantLen), 1)
 			key, msg := checkPhrase(c)
 			r.Check(rt, key == "", key, c, "%s", msg)
 			r.Count("direction_phrase_first", 1)
@@ -256,7 +263,7 @@ func checkPhrase(c *codecCase) (string, string) {
 
 var malKinds = []string{"unknown-typo", "unknown-prefix", "unknown-suffix", "upper-case", "mixed-case", "double-space", "leading-space", "trailing-space",
 	"tab-separator", "newline-separator", "nbsp-separator", "word-removed", "word-added", "30-words", "36-words", "wrong-decoder", "empty", "only-spaces", "comma-separated", "unicode-lookalike", "trailing-newline",
-	"word-removed+trailing-space", "word-removed+leading-space", "word-removed+double-space", "two-words-removed+two-spaces", "word-added+trailing-space", "suffix-on-six-letter-word", "word+NUL"}
+	"word-removed+trailing-space", "word-removed+leading-space", "word-removed+double-space", "two-words-removed+two-spaces", "word-added+trailing-space", "suffix-on-six-letter-word", "word+NUL", "count-same-size-mod-256", "two-tabs", "two-newlines", "tab-and-newline-wrapped"}
 
 func inList(w string) bool {
 	for _, x := range words {
@@ -362,6 +369,29 @@ func TestMalformed(t *testing.T) {
 		case "word-added+trailing-space":
 			ws = append(ws, words[rapid.IntRange(0, 4095).Draw(rt, "extra")])
 			c.Phrase = join() + " "
+		case "count-same-size-mod-256":
+			// 544 / 546 words decode to 816 / 819 bytes = 48 / 51 modulo 256 (1056 / 1058: modulo 512)
+			want := map[int][]int{48: {544, 1056}, 51: {546, 1058}}[size][rapid.IntRange(0, 1).Draw(rt, "which")]
+			for len(ws) < want {
+				ws = append(ws, words[rapid.IntRange(0, 4095).Draw(rt, "extra")])
+			}
+			c.Phrase = join()
+		case "two-tabs", "two-newlines", "tab-and-newline-wrapped":
+			// TWO separators are not blanks (the number of blank-separated tokens stays even)
+			seps := map[string][2]string{"two-tabs": {"\t", "\t"}, "two-newlines": {"\n", "\n"}, "tab-and-newline-wrapped": {"\t", "\r\n"}}[kind]
+			a := rapid.IntRange(1, nw-2).Draw(rt, "gapA")
+			b := rapid.IntRange(a+1, nw-1).Draw(rt, "gapB")
+			out := ws[0]
+			for i := 1; i < nw; i++ {
+				sep := " "
+				if i == a {
+					sep = seps[0]
+				} else if i == b {
+					sep = seps[1]
+				}
+				out += sep + ws[i]
+			}
+			c.Phrase = out
 		case "suffix-on-six-letter-word":
 			for tries := 0; len(ws[pos]) != 6 && tries < 200; tries++ {
 				ws[pos] = words[rapid.IntRange(0, 4095).Draw(rt, "six")]
@@ -409,6 +439,24 @@ func TestMalformed(t *testing.T) {
 		r.Sample(map[string]any{"edit": kind, "decoder_size": c.Size, "phrase": short(c.Phrase)})
 		r.Check(rt, key == "", key+"/"+kind, c, "%s: %s", kind, msg)
 	})
+}
+
+// TestColdDecode: a fresh process whose FIRST mnemonic operation is a decode (restoring a wallet from a written-down
+// phrase); the phrase comes from the reference codec, the library has not encoded anything yet.
+func TestColdDecode(t *testing.T) {
+	r := ev.New(t, prop, "TestColdDecode")
+	r.Rule("fresh process: the first mnemonic operation is a DECODE of a phrase produced by the reference codec (48- or 51-byte form by shard), compared with the bytes; then an encode; non-trivial = the first decode of the process, distinct by form")
+	size := []int{48, 51}[r.Shard()%2]
+	b := pu.DetBytes(r.Seed()*77+uint64(size), size)
+	phrase, _ := codecref.Encode(b, words)
+	c := &codecCase{Size: size, Phrase: phrase}
+	got, o := dec(size, phrase)
+	r.Eval(1)
+	r.NonTrivial("cold", size)
+	r.Sample(map[string]any{"first_operation": "decode", "size": size})
+	r.Check(t, !o.Panicked && bytes.Equal(got, b), "cold/decode-first", c, "decoding as the first mnemonic operation of the process: %s, bytes equal: %v", o, bytes.Equal(got, b))
+	key, msg := checkPhrase(c)
+	r.Check(t, key == "", key, c, "%s", msg)
 }
 
 func TestAllBlocks(t *testing.T) {
@@ -467,6 +515,7 @@ func init() {
 			r.Check(t, key == "", key, &c, "%s", msg)
 		})
 	}
+	reg("TestColdDecode", checkPhrase)
 	reg("TestPositionSweep", checkBytes)
 	reg("TestAllBlocks", checkBytes)
 	reg("TestMalformed", checkMalformed)
